@@ -121,24 +121,24 @@ type Z struct {
 // ---- generators ---------------------------------------------------------------
 
 // Bytes draws a byte string with an emphasis on bytes that need escaping.
-func Bytes(t *rapid.T, label string, max int) []byte {
-	n := rapid.IntRange(0, max).Draw(t, label+"_n")
+func Bytes(t Src, label string, max int) []byte {
+	n := t.Int(0, max)
 	b := make([]byte, n)
 	for i := range b {
-		switch rapid.IntRange(0, 5).Draw(t, label+"_k") {
+		switch t.Int(0, 5) {
 		case 0:
-			b[i] = byte(rapid.SampledFrom([]int{'"', '\\', '\'', 0, '\n', '\t', '\r', 0x7f, 0x80, 0xff, '\a', '\b', '\f', '\v', 0x1b, 0xc3, '(', ')', ',', '=', '[', ']', ' '}).Draw(t, label+"_s"))
+			b[i] = byte(pickInt(t, []int{'"', '\\', '\'', 0, '\n', '\t', '\r', 0x7f, 0x80, 0xff, '\a', '\b', '\f', '\v', 0x1b, 0xc3, '(', ')', ',', '=', '[', ']', ' '}))
 		case 1:
-			b[i] = rapid.Byte().Draw(t, label+"_b")
+			b[i] = byte(t.Int(0, 255))
 		default:
-			b[i] = byte(rapid.IntRange(32, 126).Draw(t, label+"_p"))
+			b[i] = byte(t.Int(32, 126))
 		}
 	}
 	return b
 }
 
-func f64(t *rapid.T) float64 {
-	switch rapid.IntRange(0, 9).Draw(t, "fk") {
+func f64(t Src) float64 {
+	switch t.Int(0, 9) {
 	case 0:
 		return math.NaN()
 	case 1:
@@ -154,12 +154,12 @@ func f64(t *rapid.T) float64 {
 	case 6:
 		return math.SmallestNonzeroFloat64
 	default:
-		return math.Float64frombits(rapid.Uint64().Draw(t, "fbits"))
+		return math.Float64frombits(t.U64())
 	}
 }
 
-func f32(t *rapid.T) float32 {
-	switch rapid.IntRange(0, 7).Draw(t, "f32k") {
+func f32(t Src) float32 {
+	switch t.Int(0, 7) {
 	case 0:
 		return float32(math.NaN())
 	case 1:
@@ -171,12 +171,12 @@ func f32(t *rapid.T) float32 {
 	case 4:
 		return math.MaxFloat32
 	default:
-		return math.Float32frombits(rapid.Uint32().Draw(t, "f32bits"))
+		return math.Float32frombits(uint32(t.U64()))
 	}
 }
 
-func i64(t *rapid.T) int64 {
-	switch rapid.IntRange(0, 5).Draw(t, "ik") {
+func i64(t Src) int64 {
+	switch t.Int(0, 5) {
 	case 0:
 		return math.MinInt64
 	case 1:
@@ -186,37 +186,37 @@ func i64(t *rapid.T) int64 {
 	case 3:
 		return -1
 	default:
-		return rapid.Int64().Draw(t, "i64")
+		return int64(t.U64())
 	}
 }
 
-func u64(t *rapid.T) uint64 {
-	switch rapid.IntRange(0, 4).Draw(t, "uk") {
+func u64(t Src) uint64 {
+	switch t.Int(0, 4) {
 	case 0:
 		return math.MaxUint64
 	case 1:
 		return 0
 	default:
-		return rapid.Uint64().Draw(t, "u64")
+		return t.U64()
 	}
 }
 
-func sliceLen(t *rapid.T) int { return rapid.IntRange(0, 4).Draw(t, "sl") }
+func sliceLen(t Src) int { return t.Int(0, 4) }
 
-func GenPlaneBase(t *rapid.T) *PlaneBase {
-	if rapid.IntRange(0, 5).Draw(t, "pbnil") == 0 {
+func GenPlaneBase(t Src) *PlaneBase {
+	if t.Int(0, 5) == 0 {
 		return nil
 	}
-	pb := &PlaneBase{Name: string(Bytes(t, "pbname", 8)), Rating: i64(t), CanFly: rapid.Bool().Draw(t, "canfly"), Capacity: i64(t), MaxSpeed: f64(t)}
+	pb := &PlaneBase{Name: string(Bytes(t, "pbname", 8)), Rating: i64(t), CanFly: (t.Int(0, 1) == 1), Capacity: i64(t), MaxSpeed: f64(t)}
 	n := sliceLen(t)
 	for i := 0; i < n; i++ {
-		pb.Homes = append(pb.Homes, air.Airport(rapid.IntRange(0, 9).Draw(t, "airport")))
+		pb.Homes = append(pb.Homes, air.Airport(t.Int(0, 9)))
 	}
 	return pb
 }
 
-func GenAircraft(t *rapid.T) Aircraft {
-	a := Aircraft{Which: air.Aircraft_Which(rapid.IntRange(0, 3).Draw(t, "awhich"))}
+func GenAircraft(t Src) Aircraft {
+	a := Aircraft{Which: air.Aircraft_Which(t.Int(0, 3))}
 	switch a.Which {
 	case air.Aircraft_Which_b737:
 		a.B737 = &B737{Base: GenPlaneBase(t)}
@@ -230,8 +230,8 @@ func GenAircraft(t *rapid.T) Aircraft {
 
 // GenZ draws a Z value; only the active union member is populated (pogs
 // ignores the others by contract, which C19 checks separately).
-func GenZ(t *rapid.T, depth int) *Z {
-	which := rapid.IntRange(0, 45).Draw(t, "zwhich") // capability/anyPointer members (46..49) are handled by dedicated cases
+func GenZ(t Src, depth int) *Z {
+	which := t.Int(0, 45) // capability/anyPointer members (46..49) are handled by dedicated cases
 	if depth <= 0 && (which == 1 || which == 25 || which == 26) {
 		which = 13
 	}
@@ -260,7 +260,7 @@ func GenZ(t *rapid.T, depth int) *Z {
 	case air.Z_Which_u8:
 		z.U8 = uint8(u64(t))
 	case air.Z_Which_bool:
-		z.Bool = rapid.Bool().Draw(t, "zbool")
+		z.Bool = (t.Int(0, 1) == 1)
 	case air.Z_Which_text:
 		z.Text = string(Bytes(t, "ztext", 24))
 	case air.Z_Which_blob:
@@ -306,8 +306,8 @@ func GenZ(t *rapid.T, depth int) *Z {
 			z.U8vec = append(z.U8vec, uint8(u64(t)))
 		}
 	case air.Z_Which_boolvec:
-		for i, n := 0, rapid.IntRange(0, 19).Draw(t, "nb"); i < n; i++ {
-			z.Boolvec = append(z.Boolvec, rapid.Bool().Draw(t, "bv"))
+		for i, n := 0, t.Int(0, 19); i < n; i++ {
+			z.Boolvec = append(z.Boolvec, (t.Int(0, 1) == 1))
 		}
 	case air.Z_Which_datavec:
 		for i, n := 0, sliceLen(t); i < n; i++ {
@@ -318,13 +318,13 @@ func GenZ(t *rapid.T, depth int) *Z {
 			z.Textvec = append(z.Textvec, string(Bytes(t, "tv", 8)))
 		}
 	case air.Z_Which_zvec:
-		for i, n := 0, rapid.IntRange(0, 3).Draw(t, "nz"); i < n; i++ {
+		for i, n := 0, t.Int(0, 3); i < n; i++ {
 			z.Zvec = append(z.Zvec, GenZ(t, depth-1))
 		}
 	case air.Z_Which_zvecvec:
-		for i, n := 0, rapid.IntRange(0, 2).Draw(t, "nzz"); i < n; i++ {
+		for i, n := 0, t.Int(0, 2); i < n; i++ {
 			var row []*Z
-			for j, m := 0, rapid.IntRange(0, 2).Draw(t, "nzr"); j < m; j++ {
+			for j, m := 0, t.Int(0, 2); j < m; j++ {
 				row = append(row, GenZ(t, depth-1))
 			}
 			z.Zvecvec = append(z.Zvecvec, row)
@@ -345,14 +345,14 @@ func GenZ(t *rapid.T, depth int) *Z {
 		for i, n := 0, sliceLen(t); i < n; i++ {
 			r.Beta = append(r.Beta, f64(t))
 		}
-		for i, n := 0, rapid.IntRange(0, 2).Draw(t, "npl"); i < n; i++ {
+		for i, n := 0, t.Int(0, 2); i < n; i++ {
 			r.Planes = append(r.Planes, GenAircraft(t))
 		}
 		z.Regression = r
 	case air.Z_Which_planebase:
 		z.Planebase = GenPlaneBase(t)
 	case air.Z_Which_airport:
-		z.Airport = air.Airport(rapid.IntRange(0, 9).Draw(t, "zairport"))
+		z.Airport = air.Airport(t.Int(0, 9))
 	case air.Z_Which_b737:
 		z.B737 = &B737{Base: GenPlaneBase(t)}
 	case air.Z_Which_a320:
@@ -372,3 +372,59 @@ func GenZ(t *rapid.T, depth int) *Z {
 	}
 	return z
 }
+
+// ---- sources of randomness ----------------------------------------------------
+//
+// The generators draw from a Src so that a generated Go value (which may hold
+// NaNs, nil pointers, arbitrary bytes: not JSON-friendly) can be stored in a
+// case as the "tape" of drawn numbers and rebuilt exactly on replay.
+
+type Src interface {
+	Int(lo, hi int) int
+	U64() uint64
+}
+
+func pickInt(t Src, choices []int) int { return choices[t.Int(0, len(choices)-1)] }
+
+// Rapid draws from rapid and records every draw.
+type Rapid struct {
+	T    *rapid.T
+	Tape []uint64
+}
+
+func (r *Rapid) Int(lo, hi int) int {
+	v := rapid.IntRange(lo, hi).Draw(r.T, "i")
+	r.Tape = append(r.Tape, uint64(v-lo))
+	return v
+}
+
+func (r *Rapid) U64() uint64 {
+	v := rapid.Uint64().Draw(r.T, "u")
+	r.Tape = append(r.Tape, v)
+	return v
+}
+
+// Tape replays recorded draws (and yields the lowest value once exhausted).
+type Tape struct {
+	Vals []uint64
+	pos  int
+}
+
+func (p *Tape) next() uint64 {
+	if p.pos >= len(p.Vals) {
+		return 0
+	}
+	v := p.Vals[p.pos]
+	p.pos++
+	return v
+}
+
+func (p *Tape) Int(lo, hi int) int {
+	v := p.next()
+	if span := uint64(hi - lo + 1); v >= span {
+		v %= span
+	}
+	return lo + int(v)
+}
+
+func (p *Tape) U64() uint64 { return p.next() }
